@@ -49,6 +49,10 @@ func genC04(t *rapid.T) *Case {
 	}
 	kind := rapid.SampledFrom(terminationCauses(c.Cfg.Dir)).Draw(t, "cause")
 	c.Events = []Event{{Kind: kind, Target: 0, After: rapid.IntRange(0, 80).Draw(t, "k")}}
+	if kind == "stop" && rapid.IntRange(0, 2).Draw(t, "graceful_first") == 0 {
+		// the documented way to bound a graceful stop: GracefulStop first, Stop later
+		c.Events = append(c.Events, Event{Kind: "graceful_stop", Target: 0, After: rapid.IntRange(0, 10).Draw(t, "graceful_at"), AtStep: true})
+	}
 	if kind == "handler_close" || kind == "close_channel" {
 		// for nested topologies the channel RPCs run on is the inner one
 		if c.Cfg.Dir == "nested" || c.Cfg.Dir == "nestedrev" {
@@ -164,7 +168,13 @@ func monC04(c *Case, tr *Trace) []Violation {
 	}
 	if er.Fired < 0 {
 		// the fault never struck: the tunnel was ended cleanly by the harness at the end
-		if tr.Probe != nil && (!tr.Probe.Returned || tr.Probe.Code != CodeNil) && !strings.HasPrefix(c.Cfg.Dir, "nested") {
+		gracefulFired := false
+		for i, e := range tr.Events {
+			if i < len(c.Events) && c.Events[i].Kind == "graceful_stop" && e.Fired >= 0 {
+				gracefulFired = true // a draining server refuses the probe by design
+			}
+		}
+		if tr.Probe != nil && (!tr.Probe.Returned || tr.Probe.Code != CodeNil) && !strings.HasPrefix(c.Cfg.Dir, "nested") && !gracefulFired {
 			add("tunnel_unusable_without_fault", tr.Probe.Step, "no fault fired, yet the probe RPC returned=%v code=%d %q", tr.Probe.Returned, tr.Probe.Code, tr.Probe.Err)
 		}
 		return vs
